@@ -70,6 +70,15 @@ CLAIMED.update({
    note="mutex fairness / wake-ups are not modelled (not part of the property); transport errors on the writer path are covered by C12", ref="6 C10"),
 })
 
+CLAIMED.update({
+ "C13": dict(technique="TLA+ spec of the token semaphore (Runner.tla, call-atomic, dependency semantics transcribed) model-checked over all operation histories; edge-cover replay on the real Runner/Token with counting wakers; multi-thread stress as a supplement",
+   text="Runner.tla models get_token as the async-lock acquire loop over an event-listener queue (listen, non-additional notify, propagation on drop) and checks TokenBound, NoStrandedSlot and ImmediateWhenFree over every history of create / poll / cancel / release for limits 1..3 on a runner and its clone. Every explored transition is executed on the real types and the poll results, the wake-ups of pending requests and the number of live tokens are compared.",
+   note="thread interleavings inside async-lock / event-listener are not steerable from outside: covered by a stress run with an independent live-token counter, not by the model", ref="6 C13"),
+ "C14": dict(technique="TLA+ spec of the wait-group at instruction granularity (WaitGroup.tla) with every interleaving forced onto the real code through the cfg-guarded scheduling-point hook; connection-side shutdown in Conn.tla replayed on Token::run",
+   text="WaitGroup.tla splits a poll of the shutdown future into upgrade / register / drop-temporary and interleaves token drops at every point (in particular the last drop between the liveness check and the waker registration); TLC checks ShutdownNotEarly, ShutdownWoken and completion under fairness. The hook added to WaitGroupFuture::poll lets the harness execute exactly those interleavings on the real code. The connection side (no handler after a stop request, in-flight request completes, idle connection stops without reading) is part of Conn.tla with stop requests at every suspension.",
+   note="hook commit b95836f (add-only, cfg fastcgi_server_verif)", ref="6 C14, 8"),
+})
+
 NOT_YET = {}
 
 def main():
@@ -111,6 +120,6 @@ def main():
     }
     json.dump(m, open(os.path.join(V, "MANIFEST.json"), "w"), indent=1)
 
-HOOK_COMMITS = []
+HOOK_COMMITS = ["b95836f"]
 if __name__ == "__main__":
     main()
